@@ -1164,6 +1164,8 @@ class _RK45(_AdaptiveStepRK):
             available. Units follow the provided ``system``.
         """
         self.validate_inputs(system, y0, t_vals)
+        if t_vals[-1] < t_vals[0]:
+            raise ValueError("Adaptive integrators require an increasing time grid; wrap the system in a _DirectedSystem for backward propagation")
         is_hamiltonian = isinstance(system, _HamiltonianSystemProtocol)
         if not is_hamiltonian:
             f = self._build_rhs_wrapper(system)
@@ -2247,6 +2249,8 @@ class _DOP853(_AdaptiveStepRK):
             available. Units follow the provided ``system``.
         """
         self.validate_inputs(system, y0, t_vals)
+        if t_vals[-1] < t_vals[0]:
+            raise ValueError("Adaptive integrators require an increasing time grid; wrap the system in a _DirectedSystem for backward propagation")
         # Common zero-span short-circuit
         constant_sol = self._maybe_constant_solution(system, y0, t_vals)
         if constant_sol is not None:
